@@ -24,6 +24,12 @@ THEOREMS = [
     "convert_diag_sweeps_agree",
     "convert_trajectory_heatbath_partial",
     "convert_cluster_gate_gamma_zero",
+    "convert_trajectory_option_history",
+    "option_history_last_flag",
+    "swap_moves_only_string_and_state",
+    "convert_after_swap_trajectory",
+    "flipMoves_lawful",
+    "sticky_table_diverges",
     "witnessMoves_heatPad",
     "witnessMoves_lawful",
     "witness_gate_off",
@@ -62,10 +68,11 @@ def main(ck):
         ck.notes.append("h != 0 lock-step runs: %s of %s identical (finding F4; judged only on the recorded witness input)" % (ck.stats.get("lockstep_h_nonzero_same"), ck.stats.get("lockstep_h_nonzero_runs")))
         ck.notes.append("heat-bath option set before conversion: %s of %s lock-step runs identical (into_qmc does not carry the option; outside the property's quantifier, recorded as a note)" % (ck.stats.get("lockstep_heatbath_option_same"), ck.stats.get("lockstep_heatbath_option_runs")))
         ck.notes.append("heat-bath on both samplers: %s of %s lock-step runs identical; Gamma = 0: %s of %s identical (both judged by the oracle)" % (ck.stats.get("lockstep_heatbath_both_same"), ck.stats.get("lockstep_heatbath_both_runs"), ck.stats.get("lockstep_gamma_zero_same"), ck.stats.get("lockstep_gamma_zero_runs")))
+        ck.notes.append("option histories after the conversion: %s of %s lock-step runs identical (%s runs switch heat-bath off after heat-bath steps); swap-then-convert: %s of %s identical (both judged by the oracle)" % (ck.stats.get("lockstep_option_history_same"), ck.stats.get("lockstep_option_history_runs"), ck.stats.get("lockstep_hist_runs_switching_heatbath_off_after_heatbath_steps"), ck.stats.get("lockstep_swap_then_convert_same"), ck.stats.get("lockstep_swap_then_convert_runs")))
         ck.notes.append("small energy units (2^-56, 2^-60): %s convert cases, %s edge interactions flagged constant-along-diagonal although J != 0 (absolute tolerance, F23 class; harmless because Interaction::at indexes the table all the same - checked by the oracle); %s of %s split lock-step runs identical" % (ck.stats.get("convert_small_units"), ck.stats.get("convert_edges_flagged_constant_diag_though_J_nonzero"), ck.stats.get("lockstep_small_units_same"), ck.stats.get("lockstep_small_units_runs")))
         ck.notes.append("Gamma < 0: " + str(ck.stats.get("note_gamma_negative")))
     ck.assumptions.append("Gamma >= 0 (constructor domain of make_interaction; with Gamma < 0 the Ising sampler's own timestep panics in gen_bool)")
-    ck.assumptions.append("trajectory theorem: h = 0 (|h| <= eps), RVB and heat-bath options off; it is a statement about the composition of the two timesteps out of shared update routines (Moves/Lawful), tied to the real code by the lock-step runs")
+    ck.assumptions.append("trajectory theorem: h = 0 (|h| <= eps), RVB off, the heat-bath option set identically on both samplers (any on/off history: convert_trajectory_option_history); it is a statement about the composition of the two timesteps out of shared update routines (Moves/Lawful), tied to the real code by the lock-step runs")
     api_cov.run(ck, "c04")   # otherwise unexercised public API, model-free oracles of this property
     scale_inv.run(ck, "c15")   # power-of-two unit change: identical trajectory, energies exactly scaled (model-free twin oracle)
     return ck.finish(RULE)
